@@ -535,3 +535,217 @@ Fixpoint find_param_examples_by_name_only (params : list json) (name field : str
 
 Definition xres1 (r : res json) : xres :=
   match r with Ok v => XOk [v] | Err Raised => XRaises | Err OutOfFuel => XFuel end.
+
+(* ------------------------------------------------------------------ *)
+(* 7. Case assembly with OBJECT IDENTITY                                *)
+(*    (get_strategies_from_examples examples.py:50-76,                  *)
+(*     produce_combinations as an allocator of dict objects 311-356,    *)
+(*     get_parameters_value _hypothesis.py:213-239 on an object,        *)
+(*     serialize_components examples.py:56-64 as an in-place update,    *)
+(*     add_examples builder.py:176-178: one generate_one per strategy,  *)
+(*     in order; the requests are sent after ALL cases were built).     *)
+(*    A dict object is an address into a heap of container contents.    *)
+(*    The style serializer of a container (foreign: serialization.py,   *)
+(*    property C06) and the draw of the fill-in strategy (foreign:      *)
+(*    hypothesis-jsonschema) are function arguments.                    *)
+(* ------------------------------------------------------------------ *)
+Definition dict := list (str * json).
+Definition heap := list dict.                 (* address = index; allocation appends *)
+Definition hget (h : heap) (a : nat) : dict := nth a h [].
+Fixpoint hset (h : heap) (a : nat) (d : dict) : heap :=
+  match h, a with
+  | [], _ => []
+  | _ :: r, O => d :: r
+  | x :: r, S a1 => x :: hset r a1 d
+  end.
+Definition halloc (h : heap) (d : dict) : heap * nat := (h ++ [d], length h).
+
+(* a combination as openapi_cases receives it: container name -> dict OBJECT *)
+Definition rcombo := list (str * nat).
+
+Definition containers (c : combo) : list (str * dict) :=
+  flat_map (fun kv => match snd kv with KCont m => [(fst kv, m)] | _ => [] end) c.
+
+(* _produce_parameter_combinations: every container of every parameter
+   combination is a dict display, i.e. a new object *)
+Definition alloc_container (acc : heap * rcombo) (cd : str * dict) : heap * rcombo :=
+  (fst acc ++ [snd cd], snd acc ++ [(fst cd, length (fst acc))]).
+Definition alloc_param_combo (h : heap) (c : combo) : heap * rcombo :=
+  fold_left alloc_container (containers c) (h, []).
+Definition alloc_step (acc : heap * list rcombo) (c : combo) : heap * list rcombo :=
+  (fst (alloc_param_combo (fst acc) c), snd acc ++ [snd (alloc_param_combo (fst acc) c)]).
+Definition alloc_param_combos (pcs : list combo) : heap * list rcombo :=
+  fold_left alloc_step pcs ([], []).
+
+(* produce_combinations with identities: parameter_combos is a LIST built once;
+   {**body, **params} makes a new outer dict whose container values are the
+   SAME objects each time the combination comes round in cycle() *)
+Definition ref_grouped (p : pgroups) (b : bgroups) : heap * list rcombo :=
+  match b with
+  | [] => match p with [] => ([], []) | _ => alloc_param_combos (param_combos p) end
+  | _ => match p with
+         | [] => ([], map (fun _ => []) (body_combos b))
+         | _ => let hr := alloc_param_combos (param_combos p) in
+                (fst hr, map (fun idx => cyc [] (snd hr) idx)
+                             (seq 0 (Nat.max (length (snd hr)) (length (body_combos b)))))
+         end
+  end.
+Definition ref_combinations (exs : list example) : heap * list rcombo :=
+  ref_grouped (fst (group exs)) (snd (group exs)).
+
+Definition deref (h : heap) (rc : rcombo) : list (str * dict) :=
+  map (fun ca => (fst ca, hget h (snd ca))) rc.
+
+(* which rule get_parameters_value follows when the strategy drew something *)
+Inductive gpv_rule :=
+| CopyWhenDrawn            (* the code: if new is not None: copied = deepclone(value); copied.update(new); return copied *)
+| ShareWhenNothingNew.     (* SENTINEL, not the code: if not new: return value (seed C17_c) *)
+
+(* get_parameters_value(value = the object at address a).  drawn = draw(strategy)
+   of this call (None: st.none(), the location declares no parameter).
+   Result: the heap and the object returned (None: Python None). *)
+Definition gpv_ref (rule : gpv_rule) (drawn : option dict) (h : heap) (a : nat) : heap * option nat :=
+  match hget h a with
+  | [] =>                                             (* not value: return draw(strategy) - a new object *)
+      match drawn with
+      | Some new => (h ++ [new], Some (length h))
+      | None => (h, None)
+      end
+  | v =>
+      match drawn with
+      | None => (h, Some a)                           (* return value: the object of the caller itself *)
+      | Some new =>
+          match rule, new with
+          | ShareWhenNothingNew, [] => (h, Some a)
+          | _, _ => (h ++ [assoc_update v new], Some (length h))
+          end
+      end
+  end.
+
+Definition case_refs := list (str * option nat).
+(* draw idx c v: what the fill-in strategy of container c gives, for the
+   idx-th case, when v is the explicit part (exclude = v.keys()) *)
+Definition draw_fn := nat -> str -> dict -> option dict.
+Definition ser_fn := str -> dict -> dict.
+
+Definition gen_step (rule : gpv_rule) (draw : draw_fn) (idx : nat)
+  (acc : heap * case_refs) (ca : str * nat) : heap * case_refs :=
+  let r := gpv_ref rule (draw idx (fst ca) (hget (fst acc) (snd ca))) (fst acc) (snd ca) in
+  (fst r, snd acc ++ [(fst ca, snd r)]).
+
+(* setattr(case, container, map_func(getattr(case, container))): every conversion
+   writes into the dict it was given and returns it; None stays None *)
+Definition ser_step (ser : ser_fn) (h : heap) (co : str * option nat) : heap :=
+  match snd co with
+  | Some a => hset h a (ser (fst co) (hget h a))
+  | None => h
+  end.
+
+(* generate_one of openapi_cases called with the combination, mapped through serialize_components *)
+Definition build_case (rule : gpv_rule) (draw : draw_fn) (ser : ser_fn) (idx : nat)
+  (h : heap) (rc : rcombo) : heap * case_refs :=
+  let g := fold_left (gen_step rule draw idx) rc (h, []) in
+  (fold_left (ser_step ser) (snd g) (fst g), snd g).
+
+Fixpoint assemble_from (rule : gpv_rule) (draw : draw_fn) (ser : ser_fn) (idx : nat)
+  (h : heap) (rcs : list rcombo) : heap * list case_refs :=
+  match rcs with
+  | [] => (h, [])
+  | rc :: r =>
+      let b := build_case rule draw ser idx h rc in
+      let rest := assemble_from rule draw ser (S idx) (fst b) r in
+      (fst rest, snd b :: snd rest)
+  end.
+Definition assemble (rule : gpv_rule) (draw : draw_fn) (ser : ser_fn) (h : heap) (rcs : list rcombo) :=
+  assemble_from rule draw ser 0 h rcs.
+
+(* what each case holds when the requests are sent *)
+Definition wire (h : heap) (cr : case_refs) : list (str * option dict) :=
+  map (fun co => (fst co, match snd co with Some a => Some (hget h a) | None => None end)) cr.
+Definition wires (rule : gpv_rule) (draw : draw_fn) (ser : ser_fn) (h : heap) (rcs : list rcombo)
+  : list (list (str * option dict)) :=
+  map (wire (fst (assemble rule draw ser h rcs))) (snd (assemble rule draw ser h rcs)).
+
+(* ---- specification: the value-level meaning of one case ---- *)
+Definition strip (o : option dict) : dict := match o with Some d => d | None => [] end.
+(* explicit part merged with the drawn part (copied.update(new)); an empty
+   explicit container is replaced by the draw *)
+Definition merged (v new : dict) : dict := match v with [] => new | _ => assoc_update v new end.
+Definition case_value (draw : draw_fn) (ser : ser_fn) (h0 : heap) (idx : nat) (rc : rcombo)
+  : list (str * option dict) :=
+  map (fun ca => (fst ca, Some (ser (fst ca)
+         (merged (hget h0 (snd ca)) (strip (draw idx (fst ca) (hget h0 (snd ca)))))))) rc.
+Fixpoint values_from (draw : draw_fn) (ser : ser_fn) (h0 : heap) (idx : nat) (rcs : list rcombo)
+  : list (list (str * option dict)) :=
+  match rcs with
+  | [] => []
+  | rc :: r => case_value draw ser h0 idx rc :: values_from draw ser h0 (S idx) r
+  end.
+
+(* region predicates (executable) *)
+Definition wf_refs (h : heap) (rcs : list rcombo) : bool :=
+  forallb (fun rc => forallb (fun ca => Nat.ltb (snd ca) (length h)) rc) rcs.
+Definition is_some {A} (o : option A) : bool := match o with Some _ => true | None => false end.
+Definition is_nil {A} (l : list A) : bool := match l with [] => true | _ => false end.
+(* every location that has an explicit container declares parameters: the
+   strategy is not st.none() *)
+Fixpoint all_drawn (draw : draw_fn) (h0 : heap) (idx : nat) (rcs : list rcombo) : bool :=
+  match rcs with
+  | [] => true
+  | rc :: r => forallb (fun ca => is_some (draw idx (fst ca) (hget h0 (snd ca)))) rc
+               && all_drawn draw h0 (S idx) r
+  end.
+(* every parameter of every explicit container has an example: the explicit
+   containers are not empty and the strategy draws the empty object *)
+Fixpoint nothing_to_fill (draw : draw_fn) (h0 : heap) (idx : nat) (rcs : list rcombo) : bool :=
+  match rcs with
+  | [] => true
+  | rc :: r => forallb (fun ca => negb (is_nil (hget h0 (snd ca)))
+                                  && match draw idx (fst ca) (hget h0 (snd ca)) with
+                                     | Some [] => true | _ => false end) rc
+               && nothing_to_fill draw h0 (S idx) r
+  end.
+(* the examples, each serialized exactly once *)
+Definition examples_serialized_once (ser : ser_fn) (h0 : heap) (rcs : list rcombo)
+  : list (list (str * option dict)) :=
+  map (fun rc => map (fun ca => (fst ca, Some (ser (fst ca) (hget h0 (snd ca))))) rc) rcs.
+
+(* addresses held by the cases *)
+Definition case_addrs (crs : list case_refs) : list nat :=
+  flat_map (fun cr => flat_map (fun co => match snd co with Some a => [a] | None => [] end) cr) crs.
+
+(* get_parameters_strategy maps the drawn object through the SAME style
+   serializer before get_parameters_value merges it (strategy.map(serialize),
+   _hypothesis.py:362-364); post = quote_all / jsonify_python_specific_types *)
+Definition draw_of_strategy (ser post : ser_fn) (raw : draw_fn) : draw_fn :=
+  fun idx c v => match raw idx c v with Some r => Some (post c (ser c r)) | None => None end.
+
+(* demo serializer for the witnesses: matrix_primitive on every entry,
+   item[name] = ;name=value (values here are strings) *)
+Definition matrix_entry (kv : str * json) : str * json :=
+  (fst kv, match snd kv with JStr s => JStr (59%N :: fst kv ++ [61%N] ++ s) | x => x end).
+Definition ser_matrix : ser_fn := fun _ d => map matrix_entry d.
+
+(* finite tables standing for the two foreign functions in the correspondence
+   runs (the harness fills them from the real serializer / the recorded draws);
+   a serializer input that is not in the table gives a marker entry *)
+Definition dict_eqb (a b : dict) : bool := json_eqb (JObj a) (JObj b).
+Definition s_unmapped : str := [60;117;110;109;97;112;112;101;100;62]%N.   (* <unmapped> *)
+Definition ser_table (tbl : list (str * dict * dict)) : ser_fn :=
+  fun c d => match find (fun e => str_eqb c (fst (fst e)) && dict_eqb d (snd (fst e))) tbl with
+             | Some e => snd e
+             | None => [(s_unmapped, JNull)]
+             end.
+Definition draw_table (tbl : list (nat * str * option dict)) : draw_fn :=
+  fun idx c _ => match find (fun e => Nat.eqb idx (fst (fst e)) && str_eqb c (snd (fst e))) tbl with
+                 | Some e => snd e
+                 | None => None
+                 end.
+Definition heap_eqb (a b : heap) : bool := json_eqb (JArr (map JObj a)) (JArr (map JObj b)).
+(* everything the correspondence compares, for one example list *)
+Definition assembly_report (rule : gpv_rule) (draw : draw_fn) (ser : ser_fn) (exs : list example)
+  : list rcombo * list (list (str * option dict)) * list case_refs * bool :=
+  let hr := ref_combinations exs in
+  let asm := assemble rule draw ser (fst hr) (snd hr) in
+  (snd hr, wires rule draw ser (fst hr) (snd hr), snd asm,
+   heap_eqb (firstn (length (fst hr)) (fst asm)) (fst hr)).
